@@ -86,6 +86,26 @@ def _f():
     return (_a, _b, _c, _d, _e, _t, _u)
 trace("alias", _f())
 `},
+	{"inplace-index-attr-aliasing", false, true, `
+def _f(_o):
+    _grid = [[], [0]]
+    _row = _grid[0]
+    _grid[0] += [1]
+    _grid[0] += (2,)
+    _grid[t(905, 1)] += [t(906, 3)]
+    _d = {"k": {"a": 1}}
+    _inner = _d["k"]
+    _d["k"] |= {"b": 2}
+    _o.g = []
+    _al = _o.g
+    _o.g += [5]
+    _o.g += (6,)
+    _o.h = {}
+    _ah = _o.h
+    _o.h |= {"z": 1}
+    return (_grid, _row, _d, _inner, _al, _o.g, _ah)
+trace("inplace-index", _f(obj()))
+`},
 	{"nested-unpack-for", false, true, `
 def _f():
     _out = []
